@@ -410,7 +410,7 @@ where
     /// Recursively flattens nested `Sequence` nodes into a single level.
     /// For example, `(seq (seq a b) c)` becomes `(seq a b c)`.
     /// Also unwraps single-element sequences into their inner schedule.
-    fn flatten_sequences(self) -> Self {
+    pub(crate) fn flatten_sequences(self) -> Self {
         match self {
             GenericSchedule::Saturate(span, sched) => {
                 GenericSchedule::Saturate(span, Box::new(sched.flatten_sequences()))
